@@ -18,7 +18,7 @@ Theorem C11_W_constructor :
        WeibullDistribution_gamma s = ov fg g /\
        WeibullDistribution_f_alpha s = fa /\
        WeibullDistribution_f_beta s = fb /\ WeibullDistribution_f_gamma s = fg.
-Proof. exact W_init_fixed. Qed.
+Proof. exact (@W_init_fixed). Qed.
 
 (* LogNormal: a parameter declared fixed has that value from construction on (generated __init__) *)
 Theorem C11_LN_constructor :
@@ -27,7 +27,7 @@ Theorem C11_LN_constructor :
        LogNormalDistribution_mu s = ov fm m /\
        LogNormalDistribution_sigma s = ov fs sg /\
        LogNormalDistribution_f_mu s = fm /\ LogNormalDistribution_f_sigma s = fs.
-Proof. exact LN_init_fixed. Qed.
+Proof. exact (@LN_init_fixed). Qed.
 
 (* Normal: a parameter declared fixed has that value from construction on (generated __init__) *)
 Theorem C11_N_constructor :
@@ -36,7 +36,7 @@ Theorem C11_N_constructor :
        NormalDistribution_mu s = ov fm m /\
        NormalDistribution_sigma s = ov fs sg /\
        NormalDistribution_f_mu s = fm /\ NormalDistribution_f_sigma s = fs.
-Proof. exact N_init_fixed. Qed.
+Proof. exact (@N_init_fixed). Qed.
 
 (* ExponentiatedWeibull: a parameter declared fixed has that value from construction on (generated __init__) *)
 Theorem C11_EW_constructor :
@@ -47,7 +47,7 @@ Theorem C11_EW_constructor :
        ExponentiatedWeibullDistribution_delta s = ov xd d /\
        ExponentiatedWeibullDistribution_f_alpha s = xa /\
        ExponentiatedWeibullDistribution_f_beta s = xb /\ ExponentiatedWeibullDistribution_f_delta s = xd.
-Proof. exact EW_init_fixed. Qed.
+Proof. exact (@EW_init_fixed). Qed.
 
 (* GeneralizedGamma: a parameter declared fixed has that value from construction on (generated __init__) *)
 Theorem C11_GG_constructor :
@@ -58,7 +58,7 @@ Theorem C11_GG_constructor :
        GeneralizedGammaDistribution_lambda_ s = ov xl l /\
        GeneralizedGammaDistribution_f_m s = xm /\
        GeneralizedGammaDistribution_f_c s = xc /\ GeneralizedGammaDistribution_f_lambda_ s = xl.
-Proof. exact GG_init_fixed. Qed.
+Proof. exact (@GG_init_fixed). Qed.
 
 (* VonMises: a parameter declared fixed has that value from construction on (generated __init__) *)
 Theorem C11_VM_constructor :
@@ -67,7 +67,7 @@ Theorem C11_VM_constructor :
        VonMisesDistribution_kappa s = ov xk k /\
        VonMisesDistribution_mu s = ov xm m /\
        VonMisesDistribution_f_kappa s = xk /\ VonMisesDistribution_f_mu s = xm.
-Proof. exact VM_init_fixed. Qed.
+Proof. exact (@VM_init_fixed). Qed.
 
 (* LogNormalNormFit: a parameter declared fixed has that value from construction on (generated __init__) *)
 Theorem C11_NF_constructor :
@@ -76,7 +76,7 @@ Theorem C11_NF_constructor :
        LogNormalNormFitDistribution_mu_norm s = ov fm m /\
        LogNormalNormFitDistribution_sigma_norm s = ov fs sg /\
        LogNormalNormFitDistribution_f_mu_norm s = fm /\ LogNormalNormFitDistribution_f_sigma_norm s = fs.
-Proof. exact NF_init_fixed. Qed.
+Proof. exact (@NF_init_fixed). Qed.
 
 (* Weibull: the generated _fit_mle makes exactly this scipy call and unpacks its result into these attributes *)
 Theorem C11_W_fit_call :
@@ -98,13 +98,13 @@ Theorem C11_W_fit_call :
              |}
        | b :: g :: a :: _ :: _ => Err "ValueError:unpack"
        end.
-Proof. exact W_fit_unfold. Qed.
+Proof. exact (@W_fit_unfold). Qed.
 
 (* Weibull: for EVERY subset of fixed parameters, every keyword handed to scipy is a start value or a valid fix-keyword of that family *)
 Theorem C11_W_fit_keywords_valid :
   forall s : WeibullDistribution,
        forallb (fun kv : string * R => key_ok "weibull_min" (fst kv)) (f_kw (W_call s)) = true.
-Proof. exact W_keys_valid. Qed.
+Proof. exact (@W_keys_valid). Qed.
 
 (* Weibull: under the fit contract fitting succeeds, each fixed parameter still has exactly its value, the f_ attributes are unchanged (exact reals; binary64 round-off of exp/log and 1/x is outside the theorem) *)
 Theorem C11_W_fit_fixed :
@@ -119,7 +119,7 @@ Theorem C11_W_fit_fixed :
          WeibullDistribution_f_beta s' = WeibullDistribution_f_beta s /\
          WeibullDistribution_f_gamma s' = WeibullDistribution_f_gamma s /\
          c_params (WeibullDistribution_cdf s' None None None) = fit (W_call s).
-Proof. exact W_fit_fixed. Qed.
+Proof. exact (@W_fit_fixed). Qed.
 
 (* LogNormal: the generated _fit_mle makes exactly this scipy call and unpacks its result into these attributes *)
 Theorem C11_LN_fit_call :
@@ -138,13 +138,13 @@ Theorem C11_LN_fit_call :
              |}
        | sg :: _ :: sc :: _ :: _ => Err "ValueError:unpack"
        end.
-Proof. exact LN_fit_unfold. Qed.
+Proof. exact (@LN_fit_unfold). Qed.
 
 (* LogNormal: for EVERY subset of fixed parameters, every keyword handed to scipy is a start value or a valid fix-keyword of that family *)
 Theorem C11_LN_fit_keywords_valid :
   forall s : LogNormalDistribution,
        forallb (fun kv : string * R => key_ok "lognorm" (fst kv)) (f_kw (LN_call s)) = true.
-Proof. exact LN_keys_valid. Qed.
+Proof. exact (@LN_keys_valid). Qed.
 
 (* LogNormal: under the fit contract fitting succeeds, each fixed parameter still has exactly its value, the f_ attributes are unchanged (exact reals; binary64 round-off of exp/log and 1/x is outside the theorem) *)
 Theorem C11_LN_fit_fixed :
@@ -158,7 +158,7 @@ Theorem C11_LN_fit_fixed :
          LogNormalDistribution_f_sigma s' = LogNormalDistribution_f_sigma s /\
          (0 < nth 2 (fit (LN_call s)) 1 ->
           c_params (LogNormalDistribution_cdf RN s' None None) = fit (LN_call s)).
-Proof. exact LN_fit_fixed. Qed.
+Proof. exact (@LN_fit_fixed). Qed.
 
 (* Normal: the generated _fit_mle makes exactly this scipy call and unpacks its result into these attributes *)
 Theorem C11_N_fit_call :
@@ -177,13 +177,13 @@ Theorem C11_N_fit_call :
              |}
        | m :: sg :: _ :: _ => Err "ValueError:unpack"
        end.
-Proof. exact N_fit_unfold. Qed.
+Proof. exact (@N_fit_unfold). Qed.
 
 (* Normal: for EVERY subset of fixed parameters, every keyword handed to scipy is a start value or a valid fix-keyword of that family *)
 Theorem C11_N_fit_keywords_valid :
   forall s : NormalDistribution,
        forallb (fun kv : string * R => key_ok "norm" (fst kv)) (f_kw (N_call s)) = true.
-Proof. exact N_keys_valid. Qed.
+Proof. exact (@N_keys_valid). Qed.
 
 (* Normal: under the fit contract fitting succeeds, each fixed parameter still has exactly its value, the f_ attributes are unchanged (exact reals; binary64 round-off of exp/log and 1/x is outside the theorem) *)
 Theorem C11_N_fit_fixed :
@@ -196,7 +196,7 @@ Theorem C11_N_fit_fixed :
          NormalDistribution_f_mu s' = NormalDistribution_f_mu s /\
          NormalDistribution_f_sigma s' = NormalDistribution_f_sigma s /\
          c_params (NormalDistribution_cdf s' None None) = fit (N_call s).
-Proof. exact N_fit_fixed. Qed.
+Proof. exact (@N_fit_fixed). Qed.
 
 (* ExponentiatedWeibull: the generated _fit_mle makes exactly this scipy call and unpacks its result into these attributes *)
 Theorem C11_EW_fit_call :
@@ -218,13 +218,13 @@ Theorem C11_EW_fit_call :
              |}
        | d :: b :: _ :: a :: _ :: _ => Err "ValueError:unpack"
        end.
-Proof. exact EW_fit_unfold. Qed.
+Proof. exact (@EW_fit_unfold). Qed.
 
 (* ExponentiatedWeibull: for EVERY subset of fixed parameters, every keyword handed to scipy is a start value or a valid fix-keyword of that family *)
 Theorem C11_EW_fit_keywords_valid :
   forall s : ExponentiatedWeibullDistribution,
        forallb (fun kv : string * R => key_ok "exponweib" (fst kv)) (f_kw (EW_call s)) = true.
-Proof. exact EW_keys_valid. Qed.
+Proof. exact (@EW_keys_valid). Qed.
 
 (* ExponentiatedWeibull: under the fit contract fitting succeeds, each fixed parameter still has exactly its value, the f_ attributes are unchanged (exact reals; binary64 round-off of exp/log and 1/x is outside the theorem) *)
 Theorem C11_EW_fit_fixed :
@@ -245,7 +245,7 @@ Theorem C11_EW_fit_fixed :
          ExponentiatedWeibullDistribution_f_beta s' = ExponentiatedWeibullDistribution_f_beta s /\
          ExponentiatedWeibullDistribution_f_delta s' = ExponentiatedWeibullDistribution_f_delta s /\
          c_params (ExponentiatedWeibullDistribution_cdf RN s' None None None) = fit (EW_call s).
-Proof. exact EW_fit_fixed. Qed.
+Proof. exact (@EW_fit_fixed). Qed.
 
 (* GeneralizedGamma: the generated _fit_mle makes exactly this scipy call and unpacks its result into these attributes *)
 Theorem C11_GG_fit_call :
@@ -267,13 +267,13 @@ Theorem C11_GG_fit_call :
              |}
        | m :: c :: _ :: sc :: _ :: _ => Err "ValueError:unpack"
        end.
-Proof. exact GG_fit_unfold. Qed.
+Proof. exact (@GG_fit_unfold). Qed.
 
 (* GeneralizedGamma: for EVERY subset of fixed parameters, every keyword handed to scipy is a start value or a valid fix-keyword of that family *)
 Theorem C11_GG_fit_keywords_valid :
   forall s : GeneralizedGammaDistribution,
        forallb (fun kv : string * R => key_ok "gengamma" (fst kv)) (f_kw (GG_call s)) = true.
-Proof. exact GG_keys_valid. Qed.
+Proof. exact (@GG_keys_valid). Qed.
 
 (* GeneralizedGamma: under the fit contract fitting succeeds, each fixed parameter still has exactly its value, the f_ attributes are unchanged (exact reals; binary64 round-off of exp/log and 1/x is outside the theorem) *)
 Theorem C11_GG_fit_fixed :
@@ -293,7 +293,7 @@ Theorem C11_GG_fit_fixed :
          GeneralizedGammaDistribution_f_lambda_ s' = GeneralizedGammaDistribution_f_lambda_ s /\
          (nth 3 (fit (GG_call s)) 1 <> 0 ->
           c_params (GeneralizedGammaDistribution_cdf RN s' None None None) = fit (GG_call s)).
-Proof. exact GG_fit_fixed. Qed.
+Proof. exact (@GG_fit_fixed). Qed.
 
 (* VonMises: the generated _fit_mle makes exactly this scipy call and unpacks its result into these attributes *)
 Theorem C11_VM_fit_call :
@@ -312,13 +312,13 @@ Theorem C11_VM_fit_call :
              |}
        | [k; m] | k :: m :: _ :: _ :: _ => Err "ValueError:unpack"
        end.
-Proof. exact VM_fit_unfold. Qed.
+Proof. exact (@VM_fit_unfold). Qed.
 
 (* VonMises: for EVERY subset of fixed parameters, every keyword handed to scipy is a start value or a valid fix-keyword of that family *)
 Theorem C11_VM_fit_keywords_valid :
   forall s : VonMisesDistribution,
        forallb (fun kv : string * R => key_ok "vonmises" (fst kv)) (f_kw (VM_call s)) = true.
-Proof. exact VM_keys_valid. Qed.
+Proof. exact (@VM_keys_valid). Qed.
 
 (* VonMises: under the fit contract fitting succeeds, each fixed parameter still has exactly its value, the f_ attributes are unchanged (exact reals; binary64 round-off of exp/log and 1/x is outside the theorem) *)
 Theorem C11_VM_fit_fixed :
@@ -331,7 +331,7 @@ Theorem C11_VM_fit_fixed :
          VonMisesDistribution_f_kappa s' = VonMisesDistribution_f_kappa s /\
          VonMisesDistribution_f_mu s' = VonMisesDistribution_f_mu s /\
          c_params (VonMisesDistribution_cdf s' None None) = firstn 2 (fit (VM_call s)).
-Proof. exact VM_fit_fixed. Qed.
+Proof. exact (@VM_fit_fixed). Qed.
 
 (* conditional distributions: a fixed parameter has the same value for every conditioning value *)
 Theorem C11_cond_fixed_independent_of_given :
@@ -339,7 +339,7 @@ Theorem C11_cond_fixed_independent_of_given :
          (g1 g2 : G) (i : nat) (name : string) (v : T),
        nth_error spec i = Some (name, Fixed F v) ->
        nth_error (get_param_values app spec g1) i = nth_error (get_param_values app spec g2) i.
-Proof. exact gpv_fixed_independent. Qed.
+Proof. exact (@gpv_fixed_independent). Qed.
 
 Example C11_nonvacuous :
   WeibullDistribution_alpha (WeibullDistribution_init 1 1 0 (Some 2) None None) = 2 /\
